@@ -2474,11 +2474,22 @@ class Wallet(object):
             if nkey:
                 new_keys.append(nkey)
             if len(new_keys) < number_of_keys:
+                if not nkey:
+                    # First key already existed: derive account and change from path, like the loop above does
+                    if not account_id:
+                        account_id = 0 if ("account'" not in self.key_path or
+                                           self.key_path.index("account'") >= len(fullpath)) \
+                            else int(fullpath[self.key_path.index("account'")][:-1])
+                    change_pos = [self.key_path.index(chg) for chg in ["change", "change'"] if chg in self.key_path]
+                    change = None if not change_pos or change_pos[0] >= len(fullpath) else (
+                        int(fullpath[change_pos[0]].strip("'")))
                 parent_id = new_keys[0].parent_id
                 if parent_id not in self._key_objects:
                     self.key(parent_id)
                 topkey = self._key_objects[new_keys[0].parent_id]
                 parent_key = topkey.key()
+                parent_key.witness_type = witness_type
+                parent_key.encoding = encoding
                 new_key_id = self.session.query(DbKey.id).order_by(DbKey.id.desc()).first()[0] + 1
                 hardened_child = False
                 if fullpath[-1].endswith("'"):
